@@ -1,1 +1,36 @@
-#define VH_OPS_SCHNORR
+/* C02: BIP-340.  mode 0 = sign32, 1 = sign_custom(extraparams NULL), 2 = sign_custom(extraparams{NULL fn, aux}),
+ * 3 = sign_custom with a nonce function returning the caller's 32 bytes ("nonce"), 4 = explicit bip340 fn pointer */
+static unsigned char VH_MSG[200000];
+typedef struct { unsigned char k[32]; int fail; } vh_snonce;
+static int vh_schnorr_nonce_fn(unsigned char *nonce32, const unsigned char *msg, size_t msglen, const unsigned char *key32, const unsigned char *xonly_pk32, const unsigned char *algo, size_t algolen, void *data) {
+    const vh_snonce *s = (const vh_snonce*)data; (void)msg; (void)msglen; (void)key32; (void)xonly_pk32; (void)algo; (void)algolen;
+    if (s->fail) return 0;
+    memcpy(nonce32, s->k, 32); return 1;
+}
+static void op_SchnorrSign(const jv *in, jout *out) {
+    unsigned char key[32], aux[32], sig[64]; secp256k1_keypair kp; int kret, ret = 0, has_aux;
+    long mode = jv_int(in, "mode", 0); long mlen = jv_bytes(in, "msg", VH_MSG, sizeof(VH_MSG));
+    vh_snonce sn; secp256k1_schnorrsig_extraparams ep = SECP256K1_SCHNORRSIG_EXTRAPARAMS_INIT;
+    jv_need(in, "key", key, 32);
+    has_aux = jv_bytes(in, "aux", aux, 32) == 32;
+    memset(sig, 0xAA, 64);
+    kret = secp256k1_keypair_create(CTX, &kp, key);
+    jo_int(out, "kret", kret);
+    if (!kret) { jo_int(out, "ret", 0); return; }
+    if (mode == 0) ret = secp256k1_schnorrsig_sign32(CTX, sig, VH_MSG, &kp, has_aux ? aux : NULL);
+    else if (mode == 1) ret = secp256k1_schnorrsig_sign_custom(CTX, sig, VH_MSG, (size_t)mlen, &kp, NULL);
+    else if (mode == 2) { ep.ndata = has_aux ? aux : NULL; ret = secp256k1_schnorrsig_sign_custom(CTX, sig, VH_MSG, (size_t)mlen, &kp, &ep); }
+    else if (mode == 4) { ep.noncefp = secp256k1_nonce_function_bip340; ep.ndata = has_aux ? aux : NULL; ret = secp256k1_schnorrsig_sign_custom(CTX, sig, VH_MSG, (size_t)mlen, &kp, &ep); }
+    else { sn.fail = jv_bytes(in, "nonce", sn.k, 32) != 32; ep.noncefp = vh_schnorr_nonce_fn; ep.ndata = &sn; ret = secp256k1_schnorrsig_sign_custom(CTX, sig, VH_MSG, (size_t)mlen, &kp, &ep); }
+    jo_int(out, "ret", ret); jo_bytes(out, "sig", sig, 64);
+}
+static void op_SchnorrVerify(const jv *in, jout *out) {
+    unsigned char sig[64], pk32[32]; secp256k1_xonly_pubkey pk; int pret;
+    long mlen = jv_bytes(in, "msg", VH_MSG, sizeof(VH_MSG));
+    jv_need(in, "sig", sig, 64); jv_need(in, "pk", pk32, 32);
+    pret = secp256k1_xonly_pubkey_parse(CTX, &pk, pk32);
+    jo_int(out, "pret", pret);
+    jo_int(out, "ret", pret ? secp256k1_schnorrsig_verify(CTX, sig, VH_MSG, (size_t)mlen, &pk) : 0);
+}
+#define VH_OPS_SCHNORR \
+    { "SchnorrSign", op_SchnorrSign }, { "SchnorrVerify", op_SchnorrVerify },
